@@ -47,8 +47,46 @@ let run_lax (entry : string) (bs : n list) : string =
        | Err _ -> "ERR"
        | Bug s -> "BUG" ^ sn s)
 
+(* round 3: packet-level accessors of a STRICT result, entries `peth`, `psll`, `pip`, `pet:<n>`:
+   values of payload_ether_type / ether_payload / ip_payload / is_ip_payload_fragmented / vlan /
+   vlan_ids (Parse/PacketAccess.v) *)
+let src_tag = function
+  | LsSlice -> "slice" | LsIpv4HeaderTotalLen -> "v4total" | LsIpv6HeaderPayloadLen -> "v6payload"
+  | LsUdpHeaderLen -> "udplen" | LsTcpHeaderLen -> "tcplen" | LsArpAddrLengths -> "arplen"
+  | LsMacsecShortLength -> "macsec"
+let win s = let (o, l) = win_of s in sn o ^ "+" ^ sn l
+let show_res f = function Ok v -> f v | Err _ -> "ERR" | Bug s -> "BUG" ^ sn s
+let run_pkt (entry : string) (bs : n list) : string =
+  let r =
+    if entry = "peth" then SlicedPacket.from_ethernet bs
+    else if entry = "psll" then SlicedPacket.from_linux_sll bs
+    else if entry = "pip" then SlicedPacket.from_ip bs
+    else if String.length entry > 4 && String.sub entry 0 4 = "pet:" then
+      SlicedPacket.from_ether_type (n_of_z (Z.of_string (String.sub entry 4 (String.length entry - 4)))) bs
+    else failwith "entry"
+  in
+  match r with
+  | Err _ -> "err"
+  | Bug s -> "BUG slicer " ^ sn s
+  | Ok p ->
+    let bad = List.filter (fun a -> match a with Bug _ -> true | _ -> false) (SlicedPacketPA.packet_accessors p) in
+    if bad <> [] then "BUG accessor"
+    else
+      "ok pet=" ^ show_res (function None -> "-" | Some v -> sn v) (SlicedPacketPA.payload_ether_type p)
+      ^ " ep=" ^ show_res (function None -> "-" | Some e ->
+            sn e.ep_ether_type ^ ":" ^ src_tag e.ep_src ^ ":" ^ win e.ep_slice) (SlicedPacketPA.ether_payload p)
+      ^ " ip=" ^ show_res (function None -> "-" | Some i ->
+            sn i.ipp_number ^ ":" ^ (if i.ipp_fragmented then "1" else "0") ^ ":" ^ src_tag i.ipp_src ^ ":" ^ win i.ipp_slice)
+          (SlicedPacketPA.ip_payload p)
+      ^ " frag=" ^ show_res (fun b -> if b then "1" else "0") (SlicedPacketPA.is_ip_payload_fragmented p)
+      ^ " vlan=" ^ show_res (function None -> "-" | Some (a, None) -> win a | Some (a, Some b) -> win a ^ "/" ^ win b)
+          (SlicedPacketPA.vlan p)
+      ^ " ids=" ^ show_res (fun l -> String.concat "/" (List.map sn l)) (SlicedPacketPA.vlan_ids p)
+      ^ " w=" ^ show_windows (SlicedPacketPA.packet_windows p)
+
 let run (line : string) : string =
   match Conv.split_ws line with
+  | [entry; h] when String.length entry > 0 && entry.[0] = 'p' -> run_pkt entry (bytes_of_hex h)
   | [entry; h] when String.length entry > 0 && entry.[0] = 'l' -> run_lax entry (bytes_of_hex h)
   | [entry; h] ->
     let bs = bytes_of_hex h in
